@@ -33,6 +33,8 @@ def fnptr_field(fn, v, depth=0):
     or the same through a parameter when every caller passes such a value"""
     if v.kind == 'global':
         return 'const:' + v.name
+    if v.kind == 'null':
+        return 'const:null'
     if v.kind == 'cexpr':
         b = v.strip_casts()
         return 'const:' + b.name if b.kind == 'global' else '?'
@@ -54,7 +56,13 @@ def fnptr_field(fn, v, depth=0):
         if a.kind == 'reg':
             g = fn.defs.get(a.name)
             if g is not None and g.op == 'getelementptr' and g.srcty.strip().startswith('%struct.') and len(g.ops) >= 3 and g.ops[2].kind == 'int':
-                return fn.module.field_name(g.srcty.strip(), g.ops[2].ival)
+                sty = g.srcty.strip()
+                if sty not in ('%struct.cfg_opt_t', '%struct.cfg_t'):
+                    # a record type of which only constant objects exist (a table of built-in workers): not a user callback
+                    objs = [x for x in fn.module.globals.values() if x.get('ty') and sty in x['ty']]
+                    if objs and all(x.get('const') for x in objs):
+                        return 'const:' + sty[8:] + '.' + fn.module.field_name(sty, g.ops[2].ival)
+                return fn.module.field_name(sty, g.ops[2].ival)
             if g is not None and g.op == 'getelementptr' and g.ops[0].kind == 'global' and (fn.module.globals.get(g.ops[0].name) or {}).get('const'):
                 return 'const:' + g.ops[0].name       # an entry of a constant table of functions
             if g is not None and g.op == 'alloca':
@@ -64,6 +72,13 @@ def fnptr_field(fn, v, depth=0):
         return '?'
     if d.op in ('bitcast',):
         return fnptr_field(fn, d.ops[0], depth + 1)
+    if d.op == 'call' and d.callee_name():
+        # the pointer is what a function of this unit returns: classified by its return values
+        h = next((m.funcs[d.callee_name()] for m in [fn.module] if d.callee_name() in m.funcs), None)
+        if h is not None:
+            rets = [i for i in h.instrs() if i.op == 'ret' and i.ops]
+            return _merge(set(fnptr_field(h, r.ops[0], depth + 1) for r in rets)) if rets else '?'
+        return '?'
     if d.op in ('phi', 'select'):
         return _merge(set(fnptr_field(fn, x, depth + 1) for x in (d.ops if d.op == 'phi' else d.ops[1:])))
     return '?'
@@ -331,14 +346,15 @@ def run(c, chk):
     callbacks_travel(c, chk)
     for fname, fld in (('cfg_set_validate_func', 'validcb'), ('cfg_set_validate_func2', 'validcb2')):
         fn = c.need(fname)
-        walker = [x for x in fn.calls('cfg_getopt_array')]
+        walker = [x for x in c.deep_calls(fn, 'cfg_getopt_array')]        # (also through a lookup helper shared by the two)
         stores = set()
-        for ins in fn.instrs():
-            if ins.op == 'store':
-                from ..summaries import store_key
-                k = store_key(fn, ins)
-                if not k.startswith('local:'):
-                    stores.add(k)
+        for g_ in c.deep_funcs(fn):
+            for ins in g_.instrs():
+                if ins.op == 'store':
+                    from ..summaries import store_key
+                    k = store_key(g_, ins)
+                    if not k.startswith('local:') and k != 'errno':
+                        stores.add(k)
         if len(walker) != 1:
             chk.fail('R14.6', 'register-walker:%s' % fname, c.where(fn), '%s() does not resolve the option through the schema walker' % fname)
         elif stores != {fld}:
@@ -407,11 +423,18 @@ def walker_template(c, chk, ex):
     fn = c.need('cfg_getopt_array')
     n = 0
     bad = None
-    for h in sorted(_cfg.natural_loops(fn)):
-        for p in _loops.iterate(ex, fn, h):
-            if p.end != 'stop':
-                continue
-            nxt = p.next.get('opts')
+    def descents():
+        # the walk goes on in another option table: by the loop variable, or by calling itself on the rest of the path
+        for h in sorted(_cfg.natural_loops(fn)):
+            for p in _loops.iterate(ex, fn, h):
+                if p.end == 'stop' and p.next.get('opts') is not None:
+                    yield p, p.next.get('opts')
+        for p in ex.explore(fn):
+            for e in p.events:
+                if e.kind == 'call' and e.name == fn.name and e.args:
+                    yield p, e.args[0]
+    if True:
+        for p, nxt in descents():
             if nxt is None or not sym.mentions(nxt, lambda v: v[0] == 'call' and v[1] == 'cfg_opt_getnsec'):
                 continue
             n += 1
